@@ -41,6 +41,9 @@ def impl_enroll(m, case, K):
 def g_enroll(draw):
     c = gen.fa_case(draw)
     c["K"] = gen.integer(draw, 1, 12)
+    if gen.integer(draw, 0, 7) == 0:
+        c["stats_layout"] = "lazy"  # statistics whose arrays are still Dask arrays (acc_stats of a Dask array)
+        c["K"] = min(c["K"], 3)     # (every iteration computes them again: keep these cases short)
     return c
 
 
